@@ -129,3 +129,66 @@ K("awkward_ListOffsetArray_reduce_global_startstop_64",
 
 # ---- index conversions keep every entry
 FILL("awkward_Index_to_Index64", "toptr", "length", "fromptr[@]", serves=["C02"])
+
+
+# ---- C08: collapsing an index of an index keeps every entry: missing outside stays missing, otherwise the inner entry
+K("awkward_IndexedArray_simplify",
+  loops={"L0": ["0 <= i", "forall(q, 0, i, outerindex[q] < innerlength)",
+                "forall(q, 0, i, toindex[q] == ite(outerindex[q] < 0, 0 - 1, innerindex[outerindex[q]]))"]},
+  ensures_ok=["forall(q, 0, outerlength, outerindex[q] < innerlength)",
+              "forall(q, 0, outerlength, toindex[q] == ite(outerindex[q] < 0, 0 - 1, innerindex[outerindex[q]]))"],
+  ensures_fail=["0 <= err_identity and err_identity < outerlength", "outerindex[err_identity] >= innerlength"],
+  serves=["C08", "C02", "C12", "C13"])
+
+# ---- C09: masking an indexed / byte-masked array: an element is missing afterwards iff the new mask says so or it
+# was missing before
+FILL("awkward_IndexedArray_overlay_mask", "toindex", "length", "ite(mask[@] != 0, 0 - 1, fromindex[@])", serves=["C09"])
+
+K("awkward_ByteMaskedArray_overlay_mask",
+  loops={"L0": ["0 <= i", "forall(q, 0, i, (tomask[q] != 0) == (theirmask[q] != 0 or ((mymask[q] != 0) != validwhen)))"]},
+  ensures_ok=["forall(q, 0, length, (tomask[q] != 0) == (theirmask[q] != 0 or ((mymask[q] != 0) != validwhen)))"],
+  serves=["C09", "C12", "C13"])
+
+# ---- C02 / C05: a list array is regular exactly when all its lists have one length; that length is the size
+# (0 for an array without lists)
+K("awkward_ListOffsetArray_toRegularArray",
+  loops={"L0": ["0 <= i", "implies(offsetslength - 1 <= 0, i == 0)", "implies(i == 0, size[0] == 0 - 1)", "implies(i > 0, size[0] >= 0)",
+                "forall(q, 0, i, fromoffsets[q + 1] - fromoffsets[q] == size[0])"]},
+  ensures_ok=["forall(q, 0, offsetslength - 1, fromoffsets[q + 1] - fromoffsets[q] == size[0])",
+              "implies(offsetslength - 1 <= 0, size[0] == 0)", "size[0] >= 0"],
+  ensures_fail=["0 <= err_identity and err_identity < offsetslength - 1"],
+  serves=["C02", "C05", "C12", "C13"])
+
+# ---- C01
+# total number of elements selected by a range slice: the span of the new offsets
+K("awkward_ListArray_getitem_next_range_counts",
+  loops={"L0": ["0 <= i", "total[0] == fromoffsets[i] - fromoffsets[0]"]},
+  ensures_ok=["implies(lenstarts >= 0, total[0] == fromoffsets[lenstarts] - fromoffsets[0])"],
+  serves=["C01", "C12", "C13"])
+
+# a jagged slice applied to every list of a regular / list array: list i, position j gets slice j's range,
+# and (list arrays) carries element start_i + j
+K("awkward_RegularArray_getitem_jagged_expand",
+  store_asserts={"multistarts": ["at == i*regularsize + j", "value == singleoffsets[j]"],
+                 "multistops": ["at == i*regularsize + j", "value == singleoffsets[j + 1]"]},
+  serves=["C01", "C12", "C13"])
+
+K("awkward_ListArray_getitem_jagged_expand",
+  store_asserts={"multistarts": ["at == i*jaggedsize + j", "value == singleoffsets[j]"],
+                 "multistops": ["at == i*jaggedsize + j", "value == singleoffsets[j + 1]"],
+                 "tocarry": ["at == i*jaggedsize + j", "value == fromstarts[i] + j", "fromstops[i] - fromstarts[i] == jaggedsize"]},
+  serves=["C01", "C12", "C13"])
+
+# a boolean index selects exactly the positions holding a non-zero byte
+K("awkward_NumpyArray_getitem_boolean_nonzero",
+  store_asserts={"toptr": ["value == i", "fromptr[i] != 0", "at == k"]},
+  serves=["C01", "C12", "C13"])
+
+# ---- C02: an index is contiguous exactly when entry q is q
+_CONTIG = {"loops": {"L0": ["0 <= i", "expecting == i", "result[0] != 0", "forall(q, 0, i, fromindex[q] == q)"]},
+           "ensures_ok": ["(result[0] != 0) == forall(q, 0, length, fromindex[q] == q)"]}
+K("awkward_Index_iscontiguous",
+  per_spec={"Index64_": _CONTIG, "Index32_": _CONTIG},
+  notes="the 8-bit and unsigned instantiations count with a wrapping `T expecting`: an Index8 longer than 128 entries whose entry 128 is -128 "
+        "would be reported contiguous; no caller asks this of a narrow index (carry indexes are Index64), so it is recorded as an observation, not a finding",
+  serves=["C02", "C12", "C13"])
